@@ -58,6 +58,11 @@ def main() -> int:
     o.add_argument("--index", type=int, default=0)
     o.add_argument("--tier", default="quick")
     o.add_argument("--profile", default=None)
+    sv = sub.add_parser("survey")
+    sv.add_argument("property")
+    sv.add_argument("--runs", type=int, default=500)
+    sv.add_argument("--tier", default="quick")
+    sv.add_argument("--profile", default=None)
     args = ap.parse_args()
 
     from simcore import driver
@@ -81,6 +86,8 @@ def main() -> int:
             return selftest.seams()
         if args.cmd == "one":
             return _one(args, base_seed)
+        if args.cmd == "survey":
+            return _survey(args, base_seed)
     except HarnessError as e:
         print(f"HARNESS-ERROR {e}")
         return 2
@@ -106,6 +113,37 @@ def _replay(path: str, as_json: bool, verbose: bool) -> int:
         print(f"VIOLATION property={exp['property']} replay={path}")
         return 1
     print("not reproduced")
+    return 0
+
+
+def _survey(args, base_seed: int) -> int:
+    """Development aid: tabulate every (property, kind, site) signalled over a batch, for all properties."""
+    import concurrent.futures as cf
+    import multiprocessing
+    from simcore import driver
+    from simcore.core import derive_seed
+    from sims import registry
+    spec = registry.get_spec(args.property)
+    driver.get_sim(spec.sim)
+    profiles = [args.profile] if args.profile else spec.profiles
+    jobs = [(spec.sim, profiles[i % len(profiles)], args.tier, derive_seed(base_seed, spec.property, args.tier, i),
+             spec.run_timeout, i) for i in range(args.runs)]
+    counts: dict = {}
+    first: dict = {}
+    herr = 0
+    with cf.ProcessPoolExecutor(max_workers=16, mp_context=multiprocessing.get_context("fork")) as pool:
+        for r in pool.map(driver._worker, jobs, chunksize=8):
+            if r["harness_error"]:
+                herr += 1
+                if herr <= 3:
+                    print("HARNESS", r["index"], r["harness_error"][-1500:])
+            for v in r["violations"]:
+                k = (v["property"], v["kind"], v["site"])
+                counts[k] = counts.get(k, 0) + 1
+                first.setdefault(k, (r["index"], v["detail"]))
+    for k in sorted(counts):
+        print(f"{counts[k]:6d}  {k[0]} {k[1]} site={k[2]}  first=#{first[k][0]}: {first[k][1][:160]}")
+    print(f"{args.runs} runs, {herr} harness errors")
     return 0
 
 
